@@ -19,6 +19,7 @@ length, any order the contextual tuples are put in by `NewCombinedTupleReader`):
 -/
 import OpenFGAVerif.Model.Expand
 import OpenFGAVerif.Gen.Expand
+import OpenFGAVerif.Gen.ExpandScope
 
 namespace OpenFGAVerif.C30
 open OpenFGAVerif.Vocab OpenFGAVerif.CheckV1 OpenFGAVerif.Model OpenFGAVerif.Model.Expand
@@ -635,6 +636,83 @@ theorem tie_execute_steps : Gen.Expand.executeSteps =
 theorem tie_object_relation : Gen.Expand.toObjectRelationBody = "tupleUtils.ToObjectRelationString(tk.GetObject(), tk.GetRelation())" ∧
     Gen.Expand.objectRelationFormat = "object + \"#\" + relation" := by decide
 
+
+/-! ## Request scoping: contextual tuples belong to their request
+
+`ExpandQuery.Execute` rebinds the query's own `datastore` field to a `CombinedTupleReader` over the *previous* value of
+that field and the request's contextual tuples (`Gen.ExpandScope.executeReceiverAssigns`).  A query object therefore
+accumulates the contextual tuples of every request it ever served; the property "the leaves list the valid stored
+tuples and the contextual tuples **of this request**" holds because `Server.Expand` builds a fresh `ExpandQuery` per
+request (`Gen.ExpandScope`: one `commands.NewExpandQuery(…)` call inside the handler body, `Execute` is called on that
+local variable, `Server` has no field of type ExpandQuery). -/
+
+/-- an Expand request as far as the command is concerned -/
+structure XReq where
+  ctx : List Tuple
+  obj : String
+  rel : String
+
+/-- an `ExpandQuery` object: what its `datastore` field currently yields (read order) -/
+structure Query where
+  ds : List Tuple
+
+/-- `NewExpandQuery(s.datastore)` -/
+def Query.fresh (stored : List Tuple) : Query := ⟨stored⟩
+
+/-- `q.Execute(req)`: the answer over the current `q.datastore`, and the object afterwards — its datastore is now the
+combined reader (contextual tuples of this request, ordered as `NewCombinedTupleReader` orders them, in front of what
+the field yielded before) -/
+def Query.run (m : Model) (q : Query) (rq : XReq) : Res × Query :=
+  (execute m q.ds rq.ctx rq.obj rq.rel, ⟨CombinedReader.orderCtx rq.ctx ++ q.ds⟩)
+
+/-- the handler, per request: with `fresh` a new query object per request (the source), without it one object shared
+by all requests (kept in a struct field) -/
+def serve (fresh : Bool) (m : Model) (stored : List Tuple) : Query → List XReq → List Res
+  | _, [] => []
+  | q, rq :: rest =>
+    let q0 := if fresh then Query.fresh stored else q
+    let (r, q') := Query.run m q0 rq
+    r :: serve fresh m stored q' rest
+
+/-- the source facts: one `commands.NewExpandQuery` call in the handler body, `Execute` called on that local variable,
+no ExpandQuery field on `Server` -/
+def srcFreshQuery : Bool :=
+  decide (Gen.ExpandScope.handlerNewExpandQuery = 1) && decide (Gen.ExpandScope.executeReceivers = ["q"]) &&
+  Gen.ExpandScope.executeReceiversLocal && decide (Gen.ExpandScope.serverExpandQueryFields = [])
+
+theorem tie_expand_scope : srcFreshQuery = true ∧
+    Gen.ExpandScope.executeReceiverAssigns =
+      ["q.datastore = storagewrappers.NewCombinedTupleReader( q.datastore, req.GetContextualTuples().GetTupleKeys(), )"] ∧
+    Gen.ExpandScope.otherReceiverAssigns = [] := by decide
+
+theorem serve_fresh (m : Model) (stored : List Tuple) : ∀ (q : Query) (rqs : List XReq),
+    serve true m stored q rqs = rqs.map (fun rq => execute m stored rq.ctx rq.obj rq.rel)
+  | _, [] => rfl
+  | q, rq :: rest => by
+    simp only [serve, Query.run, Query.fresh, if_true, List.map_cons]
+    rw [serve_fresh m stored _ rest]
+
+/-- **Request scoping**: with the handler as it is in the source (a fresh query per request), the answer to a request
+after ANY history of earlier requests — whatever contextual tuples they carried, on whatever targets — is the answer
+of `Execute` over the stored tuples and this request's contextual tuples alone; so a returned tree conforms to
+`rq.ctx ++ stored` and to nothing else. -/
+theorem expand_request_scoped (m : Model) (stored : List Tuple) (hist : List XReq) (rq : XReq) (q : Query) :
+    (serve srcFreshQuery m stored q (hist ++ [rq])).getLast? = some (execute m stored rq.ctx rq.obj rq.rel) ∧
+    ∀ t, execute m stored rq.ctx rq.obj rq.rel = .ok t →
+      ∃ rd, m.findRel (typeOf rq.obj) rq.rel = some rd ∧ conforms m (rq.ctx ++ stored) rq.obj rq.rel rd.rewrite t = true := by
+  rw [tie_expand_scope.1, serve_fresh]
+  refine ⟨by simp, ?_⟩
+  intro t ht
+  obtain ⟨rd, h1, h2, _⟩ := execute_ok_conforms m stored rq.ctx rq.obj rq.rel t ht
+  exact ⟨rd, h1, h2⟩
+
+/-- **negative witness — a shared query object**: the second request is answered over a store in which the FIRST
+request's contextual tuples are stored -/
+theorem shared_query_not_scoped (m : Model) (stored : List Tuple) (rq1 rq : XReq) :
+    (serve false m stored (Query.fresh stored) [rq1, rq]).getLast? =
+      some (execute m (CombinedReader.orderCtx rq1.ctx ++ stored) rq.ctx rq.obj rq.rel) := by
+  simp [serve, Query.run, Query.fresh]
+
 /-! ## Non-vacuity -/
 
 def exModel : Model :=
@@ -682,5 +760,11 @@ are build-time evaluations, not kernel proofs; they show the model and the check
 #guard conforms exModel (exCtx ++ exStored) "doc:1" "viewer" .this (.users "doc:1#viewer" ["folder:x", "user:a", "user:b", "user:z"]) = false
 #guard conforms exModel (exCtx ++ exStored) "doc:1" "viewer" .this (.users "doc:1#viewer" ["user:a", "user:b", "user:z", "user:z"]) = false
 #guard conforms exModel (exCtx ++ exStored) "doc:1" "viewer" .this (.users "doc:1#editor" ["user:a", "user:b", "user:z"]) = false
+
+-- concrete: `user:a` arrives as a contextual tuple of the first request only; a shared query lists it in the second answer
+#guard (serve true exModel exStored (Query.fresh exStored) [⟨exCtx, "doc:1", "viewer"⟩, ⟨[], "doc:1", "viewer"⟩]).map Res.render =
+  [(execute exModel exStored exCtx "doc:1" "viewer").render, (execute exModel exStored [] "doc:1" "viewer").render]
+#guard ((serve false exModel exStored (Query.fresh exStored) [⟨exCtx, "doc:1", "viewer"⟩, ⟨[], "doc:1", "viewer"⟩]).map Res.render).getLast? ≠
+  some (execute exModel exStored [] "doc:1" "viewer").render
 
 end OpenFGAVerif.C30
